@@ -291,3 +291,243 @@ def describe(prog, plat, node):
         if m[1] == node:
             pos = (ln, col)
     return text, pos
+
+
+# ------------------------------------------------------------------------------------------------ judging pipeline
+def conformance(progs, plat, rows, rng, nsample):
+    """Second-witness conformance on a sample of executions: native return value / sanitizer verdict against the
+    model's outcome, judged by TLC (spec/MiniCConf.tla). Returns (n judged, disagreements)."""
+    cand = [x for x in rows if x["s"] in ("done", "ub")]
+    rng.shuffle(cand)
+    cand = cand[:nsample]
+    if not cand:
+        return 0, []
+    by_prog = {}
+    for x in cand:
+        by_prog.setdefault(x["p"], []).append(x)
+    pidxs = sorted(by_prog)
+    obs = []
+    for k in range(0, len(pidxs), 40):
+        part = pidxs[k:k + 40]
+        sub = [progs[i] for i in part]
+        runs = []
+        meta = []
+        for j, i in enumerate(part):
+            for x in by_prog[i]:
+                runs.append((j, x["inp"]))
+                meta.append(x)
+        nat = native_run(sub, plat, runs)
+        for x, n in zip(meta, nat):
+            obs.append({"id": "%s%s" % (progs[x["p"]]["name"], x["inp"]), "s": x["s"], "w": x["w"], "res": x["res"],
+                        "nat": n["status"], "ret": [n["ret"]] if n["ret"] is not None else []})
+    work = vlib.mktmp("conf")
+    inp = os.path.join(work, "obs.ndjson")
+    out = os.path.join(work, "bad.ndjson")
+    vlib.write_ndjson(inp, obs)
+    r = vlib.tlc("MiniCConf", "MiniCConf.cfg", env={"OBS": inp, "OUT": out}, workers=1, timeout=300)
+    if not r.ok:
+        raise vlib.InfraError("model failure in MiniCConf.tla rc=%s\n%s" % (r.rc, r.out[-2000:]))
+    m = re.search(r'"CONF",\s*(\d+),\s*"JUDGED",\s*(\d+),\s*"BAD",\s*(\d+)', r.out)
+    bad = vlib.read_ndjson(out)
+    shutil.rmtree(work, ignore_errors=True)
+    if not m or int(m.group(3)) != len(bad):
+        raise vlib.InfraError("MiniCConf.tla gave no verdict\n" + r.out[-1500:])
+    return int(m.group(2)), bad
+
+
+def holds_py(f, v):
+    """Python reading of a value fact, used ONLY to cross-check the native probe output against the model's value."""
+    k = f["k"]
+    return {"eq": v == f["v"], "ne": v != f["v"], "gt": v > f["v"], "lt": v < f["v"], "never": False,
+            "true": v != 0, "false": v == 0}.get(k, None)
+
+
+def witness_fact(prog, plat, x, cfgname):
+    """Second witness for one contradicted fact (execution row x). Returns (confirmed, detail)."""
+    node = x["bad"]["node"]
+    nat = native_run([prog], plat, [(0, x["inp"])], probe=(0, node))[0]
+    detail = {"native_status": nat["status"], "native_ret": nat["ret"], "native_probe_values": nat["probes"][:20],
+              "model_ret": x["res"], "model_value": x["bad"]["v"]}
+    ok = nat["status"] == 0 and [nat["ret"]] == x["res"] and x["bad"]["v"] in nat["probes"]
+    return ok, detail
+
+
+def witness_reach(prog, plat, x, node):
+    nat = native_run([prog], plat, [(0, x["inp"])], reach=(0, node))[0]
+    detail = {"native_status": nat["status"], "native_ret": nat["ret"], "native_reached": nat["reached"], "model_ret": x["res"]}
+    ok = nat["status"] == 0 and [nat["ret"]] == x["res"] and nat["reached"]
+    return ok, detail
+
+
+def violation_key(prog, plat, node, fact, cls):
+    """Stable identity of a contradicted fact: the defect class if TLC assigned one, else program text + position + fact."""
+    if cls:
+        return cls
+    text, pos = describe(prog, plat, node)
+    return vlib.digest({"text": text.replace(prog["name"], "F"), "pos": pos, "fact": [fact["k"], fact["v"], fact["t"]]})
+
+
+# ------------------------------------------------------------------------------------------------ generic check
+def run_check(pid, tier, seed, progs, plat, mode, sizes, ncore=0, core_total=0, assumptions=(), extra=None):
+    """mode: 'valueflow' (C01: facts from the dump), 'verdict' (C03: facts from findings), 'flag' (C04: error findings).
+    sizes = (cap, fuel, conformance sample).  Returns (exit code, coverage dict)."""
+    import time
+    import findings2facts
+    t0 = time.time()
+    rng = random.Random(seed)
+    cap, fuel, nconf = sizes
+    for p in progs:
+        p.setdefault("only", [])
+    work = vlib.mktmp(pid.lower())
+    stats = {}
+    vf_facts, findings = analyse(progs, plat, work, want_findings=(mode != "valueflow"), stats=stats)
+    if mode == "valueflow":
+        facts = vf_facts
+    elif mode == "verdict":
+        facts = findings2facts.verdicts(progs, findings, stats)
+    else:
+        facts = findings2facts.flags(progs, findings, stats)
+    nfacts = attach(progs, facts)
+    meta = {}
+    for pi, fs in enumerate(facts):
+        for f in fs:
+            if "id" in f:
+                meta[(pi, f["n"])] = f
+    cfg = "MiniC04.cfg" if mode == "flag" else "MiniC.cfg"
+    if mode != "valueflow":
+        active = [i for i, p in enumerate(progs) if any(p["nf"])]      # only programs with a verdict / flag need executing
+    else:
+        active = list(range(len(progs)))
+    sub = [progs[i] for i in active]
+    ex = run_tlc(sub, cfg, cap, fuel) if sub else Execs()
+    for x in ex.rows:
+        x["p"] = active[x["p"]]
+    # ---- contradicted facts / reached flags, grouped
+    groups = {}
+    for x in ex.rows:
+        if x["s"] != "done":
+            continue
+        if mode == "flag":
+            for n in x["flagged"]:
+                groups.setdefault((x["p"], n, 0), []).append(x)
+        elif x["bad"]["set"]:
+            groups.setdefault((x["p"], x["bad"]["node"], x["bad"]["fact"]), []).append(x)
+    violations, disagreements = [], []
+    for (pi, node, fi), xs in sorted(groups.items()):
+        prog = progs[pi]
+        x = xs[0]
+        text, pos = describe(prog, plat, node)
+        if mode == "flag":
+            fact = [f for f in prog["nf"][node - 1] if f["k"] == "flag"][0]
+            ok, detail = witness_reach(prog, plat, x, node)
+            ftxt = "flagged (%s)" % meta.get((pi, node), {}).get("id", "?")
+            cls, val = "", None
+        else:
+            fact = prog["nf"][node - 1][fi - 1]
+            ok, detail = witness_fact(prog, plat, x, cfg)
+            ftxt = fact_text(prog, fact)
+            cls, val = x["bad"]["cls"], x["bad"]["v"]
+        info = {"program": prog["name"], "profile": prog["profile"], "input": x["inp"], "node": node, "position": pos, "fact": ftxt,
+                "value": val, "class": cls, "inputs_failing": len(xs), "witness": detail, "finding": meta.get((pi, node))}
+        if not ok:
+            disagreements.append(info)
+            continue
+        key = violation_key(prog, plat, node, fact, cls)
+        payload = {"prog": prog, "input": x["inp"], "node": node, "fact": fact, "factidx": fi, "plat": plat, "cfg": cfg, "mode": mode,
+                   "source": text, "info": info}
+        path = vlib.save_replay(pid, "%s-n%d-f%d" % (prog["name"], node, fi), payload)
+        if mode == "flag":
+            what = "%s %s:%s finding %s `%s` but the node is evaluated by the UB-free execution on input %s (%d such inputs)" % (
+                prog["name"], pos[0] if pos else "?", pos[1] if pos else "?", info["finding"]["id"], info["finding"]["msg"][:80], x["inp"], len(xs))
+        else:
+            src = (" [%s: %s]" % (info["finding"]["id"], info["finding"]["msg"][:80])) if info["finding"] else ""
+            what = "%s %s:%s node value %s contradicts fact `%s`%s on input %s (%d inputs)%s" % (
+                prog["name"], pos[0] if pos else "?", pos[1] if pos else "?", val, ftxt, src, x["inp"], len(xs),
+                (" class " + cls) if cls else "")
+        violations.append({"key": key, "replay": path, "what": what})
+    njudged, confbad = conformance(progs, plat, ex.rows, rng, nconf)
+    rc, new, known = vlib.verdict(pid, violations)
+    for d in disagreements[:10]:
+        print("MODEL-DISAGREEMENT (not reported against cppcheck): %s" % json.dumps(d)[:700])
+    for d in confbad[:10]:
+        print("MODEL-DISAGREEMENT (conformance sample): %s" % json.dumps(d)[:400])
+    # ---- evidence
+    by_status = {}
+    for x in ex.rows:
+        by_status[x["s"]] = by_status.get(x["s"], 0) + 1
+    done = [x for x in ex.rows if x["s"] == "done"]
+    exercised = set()
+    for x in done:
+        for n in x["seen"]:
+            exercised.add((x["p"], n))
+    nexercised = sum(len(progs[p]["nf"][n - 1]) for p, n in exercised)
+    kinds = {}
+    for p, n in exercised:
+        for f in progs[p]["nf"][n - 1]:
+            kk = meta[(p, n)]["id"] if (p, n) in meta else f["k"]
+            kinds[kk] = kinds.get(kk, 0) + 1
+    si = active[0] if active else 0
+    for i in active:
+        if i >= ncore:
+            si = i
+            break
+    sample = progs[si]
+    stext, _ = describe(sample, plat, 1)
+    srow = next((x for x in done if x["p"] == si), None)
+    cov = {
+        "states": ex.states, "transitions": ex.generated,
+        "evaluations": len(ex.rows), "distinct_nontrivial": len(exercised),
+        "rule": "one evaluation = one execution (program, input vector) explored by TLC; distinct non-trivial = distinct (program, AST node) "
+                "pairs that carry at least one fact and were evaluated by at least one completed UB-free execution",
+        "exhaustive": False,
+        "programs": len(progs), "programs_executed": len(active), "core_programs": ncore, "core_total": core_total,
+        "core_exhaustive": bool(ncore) and ncore == core_total,
+        "programs_with_completed_execution": len(set(x["p"] for x in done)),
+        "facts_recorded": nfacts, "facts_exercised": nexercised, "facts_exercised_by_kind": kinds,
+        "executions_by_status": by_status, "abandoned_executions": by_status.get("abandon", 0), "fuel_exhausted": by_status.get("fuel", 0),
+        "contradicted_facts_confirmed_natively": len(violations), "model_disagreements": len(disagreements) + len(confbad),
+        "conformance_sample_judged": njudged, "tlc_invariant_reports": ex.tlc_violation_reports,
+        "conversion_counters": {k: v for k, v in stats.items() if isinstance(v, int)},
+        "input_vectors_cap": cap, "step_budget": fuel,
+        "samples": [{"program": stext, "facts": [[n + 1, f] for n, fs in enumerate(sample["nf"]) for f in fs][:12], "one_execution": srow}],
+    }
+    if extra:
+        cov.update(extra)
+    vlib.write_evidence(pid, tier, seed, "model_checking", cov, time.time() - t0, violations=new, assumptions=list(assumptions))
+    print("%s %s: %d programs (%d executed, %d core), %d facts (%d exercised: %s), %d executions %s, %d states, %d violations (%d known), "
+          "%d model disagreements" % (pid, tier, len(progs), len(active), ncore, nfacts, nexercised, kinds, len(ex.rows), by_status, ex.states,
+                                      new, known, len(disagreements) + len(confbad)))
+    return rc, cov
+
+
+def replay(pid, path):
+    payload = json.load(open(path))
+    prog = payload["prog"]
+    mode = payload.get("mode", "valueflow")
+    r = tlc_trace(prog, payload["input"], payload["cfg"])
+    print(strip_x(r.out)[-6000:])
+    if not r.violation:
+        print("replay: TLC finds no violation for this program and input (rc=%s)" % r.rc)
+        return 0
+    x = None
+    for line in r.out.split("\n"):
+        if line.startswith('"X '):
+            x = json.loads(json.loads(line)[2:])
+    if x is None:
+        print("replay: no execution report")
+        return 0
+    if mode == "flag":
+        ok, detail = witness_reach(prog, payload["plat"], x, payload["node"])
+    else:
+        if not x["bad"]["set"]:
+            print("replay: no contradicted fact reported")
+            return 0
+        ok, detail = witness_fact(prog, payload["plat"], x, payload["cfg"])
+    print("native witness: %s" % json.dumps(detail))
+    if not ok:
+        print("replay: native witness disagrees with the model (model disagreement, not a violation)")
+        return 0
+    print(payload["source"])
+    print(json.dumps(payload["info"]))
+    print("VIOLATION property=%s replay=%s" % (pid, path))
+    return 1
